@@ -6,6 +6,7 @@ CONSTANTS
   MinPre = 0
   MinTotal = 0
   Leaky = FALSE
+  ForkBug = "none"
   Alphabet <- AllCmds
   PreAlphabet <- AllCmds
   Kinds <- AllKinds
